@@ -268,9 +268,28 @@ type replNode struct {
 // straight to the real engine.
 type replFailEngine struct {
 	*engine.EngineFacade
-	mu     sync.Mutex
-	armed  map[string]bool
-	failed int
+	mu      sync.Mutex
+	armed   map[string]bool
+	failed  int
+	slow    map[string]int           // key -> the next replicated apply of it sleeps that many ms (slowapply)
+	started map[string]chan struct{} // closed when that slow apply has begun
+}
+
+// delay: see `slowapply` — keeps the replica's loop inside its apply handler for a while
+func (f *replFailEngine) delay(key []byte) {
+	f.mu.Lock()
+	ms, ok := f.slow[string(key)]
+	ch := f.started[string(key)]
+	if ok {
+		delete(f.slow, string(key))
+	}
+	f.mu.Unlock()
+	if ok {
+		if ch != nil {
+			close(ch)
+		}
+		time.Sleep(time.Duration(ms) * time.Millisecond)
+	}
 }
 
 func (f *replFailEngine) trip(key []byte) bool {
@@ -285,6 +304,7 @@ func (f *replFailEngine) trip(key []byte) bool {
 }
 
 func (f *replFailEngine) PutInternal(key, value []byte) error {
+	f.delay(key)
 	if f.trip(key) {
 		return errors.New("injected transient apply failure")
 	}
@@ -446,8 +466,10 @@ func (w *replWorld) startReplica(name string) string {
 	return "ok"
 }
 
-// stopReplica: Manager.Stop -> Replica.Stop holds Replica.mu while waiting for the replication loop, which itself takes
-// Replica.mu in several handlers: it can hang. The harness gives it 3 s and then abandons the old objects.
+// stopReplica: Manager.Stop -> Replica.Stop. On the pinned tree Replica.Stop held Replica.mu while waiting for the
+// replication loop, which itself takes Replica.mu in several handlers: it could hang for ever (D43, repaired: the lock is
+// released while waiting). A stop that does not return within 5 s is reported (`hung stop`): restart of a replica is part
+// of C14, "every call returns" of C07. The old objects are abandoned so that the script can go on.
 func (w *replWorld) stopReplica(name string) string {
 	n := w.reps[name]
 	if n == nil || n.mgr == nil {
@@ -458,8 +480,8 @@ func (w *replWorld) stopReplica(name string) string {
 	go func() { n.mgr.Stop(); close(done) }()
 	select {
 	case <-done:
-	case <-time.After(3 * time.Second):
-		res = "ok stop-hung"
+	case <-time.After(5 * time.Second):
+		res = "hung stop"
 	}
 	n.mgr = nil
 	cl := make(chan struct{})
@@ -467,7 +489,9 @@ func (w *replWorld) stopReplica(name string) string {
 	select {
 	case <-cl:
 	case <-time.After(5 * time.Second):
-		res = "ok close-hung"
+		if res == "ok" {
+			res = "hung close"
+		}
 	}
 	n.eng = nil
 	return res
@@ -805,10 +829,14 @@ func (w *replWorld) step(ws []string) (out string) {
 	case "stop":
 		return w.stopReplica(ws[1])
 	case "restart":
-		if s := w.stopReplica(ws[1]); !strings.HasPrefix(s, "ok") {
+		s := w.stopReplica(ws[1])
+		if !strings.HasPrefix(s, "ok") && !strings.HasPrefix(s, "hung") {
 			return s
 		}
-		return w.startReplica(ws[1])
+		if r := w.startReplica(ws[1]); r != "ok" || s == "ok" {
+			return r
+		}
+		return s // the replica was started again, but its stop had hung
 	case "failapply": // failapply <replica> <key>: the next replicated apply of this key on that replica fails once
 		n := w.reps[ws[1]]
 		if n == nil {
@@ -826,6 +854,44 @@ func (w *replWorld) step(ws []string) (out string) {
 			n.arm[string(unhx(ws[2]))] = true
 		}
 		return "ok"
+	case "slowapply": // slowapply <replica> <key> <ms>: the next replicated put of this key on that (running) replica takes <ms>
+		n := w.reps[ws[1]]
+		if n == nil || n.fe == nil {
+			return "err not-running"
+		}
+		ms, _ := strconv.Atoi(ws[3])
+		n.fe.mu.Lock()
+		if n.fe.slow == nil {
+			n.fe.slow, n.fe.started = map[string]int{}, map[string]chan struct{}{}
+		}
+		n.fe.slow[string(unhx(ws[2]))] = ms
+		n.fe.started[string(unhx(ws[2]))] = make(chan struct{})
+		n.fe.mu.Unlock()
+		return "ok"
+	case "stopduring": // stopduring <replica> <key>: wait until the slow apply of <key> has begun, then stop the replica and start it again
+		n := w.reps[ws[1]]
+		if n == nil || n.fe == nil {
+			return "err not-running"
+		}
+		n.fe.mu.Lock()
+		ch := n.fe.started[string(unhx(ws[2]))]
+		n.fe.mu.Unlock()
+		if ch == nil {
+			return "err not-armed"
+		}
+		select {
+		case <-ch:
+		case <-time.After(8 * time.Second):
+			return "ok never-applied" // the entry never reached the replica within 8 s: nothing to stop into
+		}
+		s := w.stopReplica(ws[1])
+		if !strings.HasPrefix(s, "ok") && !strings.HasPrefix(s, "hung") {
+			return s
+		}
+		if r := w.startReplica(ws[1]); r != "ok" || s == "ok" {
+			return r
+		}
+		return s
 	case "put", "putbig", "del", "tx", "burst", "burstdel", "flush":
 		err, blocked, _ := replGuarded(2*replWatchdog, func() error { return w.write(ws) })
 		if blocked {
@@ -1312,7 +1378,7 @@ func replGenTx(g *gen, w *bufio.Writer, m int) {
 	fmt.Fprintln(w, strings.Join(parts, " "))
 }
 
-var replClassesQuick = []string{"after", "before", "during", "restart", "two", "tx1", "prod", "txmulti", "rotate", "onelate", "cleancatchup", "cleanpush", "sustained", "txcut", "bigvalues", "applyfail", "bigvalues"}
+var replClassesQuick = []string{"after", "before", "during", "restart", "stopstorm", "stopapply", "two", "tx1", "prod", "txmulti", "rotate", "onelate", "cleancatchup", "cleanpush", "sustained", "txcut", "bigvalues", "applyfail", "bigvalues"}
 var replClassesThorough = append(append([]string{}, replClassesQuick...), "after", "before", "during", "restart", "txmulti", "rotatemem", "txsplit", "mixed")
 
 func genRepl(g *gen, n int, tier string, w *bufio.Writer) {
@@ -1429,6 +1495,29 @@ func genReplCase(g *gen, w *bufio.Writer, class string, big bool) {
 		replGenMixedOps(g, w, 40+g.intn(40), true)
 		fmt.Fprintf(w, "burst %d 0 %d\n", 20+g.intn(100), 8+g.intn(40))
 		fmt.Fprintln(w, "join a")
+		fmt.Fprintln(w, "await a")
+	case "stopapply": // the replica is stopped exactly while its loop is inside the apply handler (a slow apply), then started again
+		hdr("converge", "")
+		fmt.Fprintln(w, "join a")
+		replGenMixedOps(g, w, 10+g.intn(20), false)
+		fmt.Fprintln(w, "await a")
+		for i, m := 0, 1+g.intn(2); i < m; i++ {
+			k := hx([]byte(fmt.Sprintf("slowkey-%d", i)))
+			fmt.Fprintf(w, "slowapply a %s %d\n", k, 600+g.intn(600))
+			fmt.Fprintf(w, "put %s %s\n", k, hx(g.bytesN(5)))
+			fmt.Fprintf(w, "stopduring a %s\n", k)
+			replGenMixedOps(g, w, 5+g.intn(10), false)
+		}
+		fmt.Fprintln(w, "await a")
+	case "stopstorm": // the replica is stopped and started again and again WHILE entries keep arriving (its loop is inside a handler)
+		hdr("converge", "")
+		fmt.Fprintln(w, "join a")
+		fmt.Fprintf(w, "bgburst %d 0 %d %d\n", 500+g.intn(400), 8+g.intn(24), 1500+g.intn(1500))
+		for i, m := 0, 6+g.intn(5); i < m; i++ {
+			fmt.Fprintf(w, "sleep %d\n", 30+g.intn(250))
+			fmt.Fprintln(w, "restart a")
+		}
+		fmt.Fprintln(w, "bgwait")
 		fmt.Fprintln(w, "await a")
 	case "two": // two replicas, one before and one after the writes
 		hdr("converge", "")
